@@ -18,7 +18,7 @@ const c01Directed = 36 * 36 * 40
 func init() {
 	core.Register(&core.Monitor{
 		ID:        "C01",
-		Technique: "reference-model monitor: exact big.Rat column and vertical index, tolerance-banded closed-form Mercator row, exact range checks",
+		Technique: "reference-model monitor: exact big.Rat column and vertical index, tolerance-banded closed-form Mercator row, exact range checks + concurrent scenarios (4-64 goroutines issuing the same judged calls at once) + hostile scheduler widths",
 		Rule: "per case: zooms (h,v) in 0..35^2 and a list of 1-12 points (uniform in the domain; exactly on tile boundaries -180+360k/2^z and lat(k,z) and their Nextafter neighbours; domain edges lon=+-180, " +
 			"nextafter(180,-inf), +-0, +-1e-300, lat=+-85.0511287798, 0; altitudes 0, +-2^25, +-tiny, exact multiples of 2^(25-v) and their neighbours, negative non-multiples; repeated points and list neighbours sharing a coordinate; 0.3 % of the lists have 1024..16384 points, lengths at and around multiples of 4096). " +
 			"Oracle per element i: f exact (no tolerance), x exact with a 2^h*2^-49 band at boundaries, y closed form with a 2^h*8e-15 band, 0 <= x,y < 2^h without tolerance; same voxel from the spatial-ID form; length and order kept. " +
